@@ -83,6 +83,21 @@ fn synth_roots(fb: &FBase, kind: &str) -> (Vec<u32>, Vec<u32>) {
         // accumulates into. With large bases only some size classes take part.
         let top_log = 32 - fb.p(fb.len() - 1).leading_zeros();
         let heavy_ok = log <= 12 || log == 16 || log == 17 || log == top_log;
+        if kind == "bucket-pile" {
+            // Forty primes of each hashed size class (bit lengths 16..18) pile into ONE 256-wide
+            // bucket of block 1 (an odd-numbered block), eight per position on five positions:
+            // the bucket (32 entries) overflows into the class's overflow list without exceeding
+            // its capacity, and the piled positions carry enough weight to be reported. With a
+            // one-block interval the pile falls outside and the table degenerates to hashed roots.
+            if (16..=18).contains(&log) && class_pos < 40 {
+                let o = BLOCK_SIZE as u32 + 256 * (10 + 3 * (log - 16)) + 11 + 50 * (class_pos as u32 / 8);
+                r1[i] = o % p;
+                if r2[i] == r1[i] {
+                    r2[i] = (r1[i] + 1) % p;
+                }
+            }
+            continue;
+        }
         if class_pos < 8 {
             match kind {
                 "zero" => {
@@ -318,7 +333,9 @@ pub fn run(ctx: &Ctx) -> Report {
     if !ctx.quick() {
         fbsizes.extend([21000, 22500, 60000]);
     } else {
-        fbsizes.push(8000);
+        // 12500 primes reach above 2^18 (the large-table class) while 20 blocks are longer than
+        // those primes: they hit the interval several times
+        fbsizes.extend([8000, 12500]);
     }
     let mut configs = vec![];
     for n in [n1, n2] {
@@ -329,7 +346,7 @@ pub fn run(ctx: &Ctx) -> Report {
                 }
                 for threshold in [40u8, 60, 80, 120] {
                     for use_root in [false, true] {
-                        for roots in ["qs", "zero", "p-1", "equal-small", "bucket-edges"] {
+                        for roots in ["qs", "zero", "p-1", "equal-small", "bucket-edges", "bucket-pile"] {
                             for reuse in ["fresh", "recycled", "rehash"] {
                                 // thin the product deterministically: every combination of
                                 // (fbsize, nblocks, roots, reuse) appears; thresholds/root rotate
@@ -370,7 +387,7 @@ pub fn run(ctx: &Ctx) -> Report {
     rep.sample(J::s(format!("{:?}", configs[0])));
     rep.sample(J::s(format!("{:?}", configs[configs.len() / 2])));
     rep.sample(J::s(format!("{:?}", configs[configs.len() - 1])));
-    rep.rule = format!("two moduli (100-bit n = 3 mod 8 style and a 4-prime 80-bit n) x factor base sizes {:?} (largest prime just below/above 2^13, 2^15, 2^16, 2^17; thorough: 2^19 and a 60k-prime base) x interval lengths {{1,2,3,5,20}} blocks x thresholds {{40,60,80,120}} x root compensation on/off x root tables {{real classical-QS roots, all-zero, p-1/p-2, equal roots (single-root marker) for small primes, bucket-edge offsets}} x state {{fresh, recycled from a previous polynomial, rehashed twice with shifted roots}} (quick: every (base, length, table, state) combination with a rotating threshold/root; thorough: the full product below 20k primes); EVERY block of every interval is sieved and for EVERY reported position the set of base primes that divide it according to the root tables must be contained in the reported list, except for counted overflow losses of a size class whose overflow store is full. On the QS configuration trial division by the listed primes must leave a cofactor without base-prime divisors. distinct_nontrivial = (position, prime) incidences checked.", fbsizes);
+    rep.rule = format!("two moduli (100-bit n = 3 mod 8 style and a 4-prime 80-bit n) x factor base sizes {:?} (largest prime just below/above 2^13, 2^15, 2^16, 2^17, quick: above 2^18 with intervals longer than the primes; thorough: 2^19 and a 60k-prime base) x interval lengths {{1,2,3,5,20}} blocks x thresholds {{40,60,80,120}} x root compensation on/off x root tables {{real classical-QS roots, all-zero, p-1/p-2, equal roots (single-root marker) for small primes, bucket-edge offsets, forty primes per hashed class piled into one bucket of an odd block (bucket overflow list in use, below its capacity)}} x state {{fresh, recycled from a previous polynomial, rehashed twice with shifted roots}} (quick: every (base, length, table, state) combination with a rotating threshold/root; thorough: the full product below 20k primes); EVERY block of every interval is sieved and for EVERY reported position the set of base primes that divide it according to the root tables must be contained in the reported list, except for counted overflow losses of a size class whose overflow store is full. On the QS configuration trial division by the listed primes must leave a cofactor without base-prime divisors. distinct_nontrivial = (position, prime) incidences checked.", fbsizes);
     rep.assumptions.push("divisibility is defined by the root tables handed to the sieve (independent of the polynomial)".into());
     rep
 }
